@@ -59,7 +59,8 @@ impl ILoggerV2 for HLogger {
 /// one file of an abstract workspace.  wire form `stem:parent:members:uses:flags`
 /// (`-` = none, lists separated by `+`); the file is `<stem>.god`; flag `n` = the file
 /// declares no class at all, flag `u` = it references unknown types, flag `x` = a method
-/// body that goes through the uses lists and the parent chain.
+/// body that goes through the uses lists and the parent chain, flag `h` = a method `UseInh<stem>` that
+/// mentions `self.<M>` for every method name of the workspace (probes `use:<M>`: hierarchy requests from a USE site).
 #[derive(Debug, Clone)]
 pub struct FileSpec {
     pub stem: String,
@@ -200,6 +201,25 @@ fn render(spec: &FileSpec, all: &[FileSpec]) -> (String, Option<(usize, usize)>,
         t.push("   ; body".to_string());
         t.push("endproc".to_string());
         t.push(String::new());
+    }
+    if spec.flags.contains('h') {
+        let mut names: Vec<String> = Vec::new();
+        for f in all {
+            for m in f.members.iter().filter(|m| !is_field(m)) {
+                if !names.iter().any(|n| n.to_uppercase() == m.to_uppercase()) {
+                    names.push(m.clone());
+                }
+            }
+        }
+        if !names.is_empty() {
+            t.push(format!("proc UseInh{}", spec.stem));
+            for m in names {
+                let l = t.push(format!("   self.{}", m));
+                probes.push((format!("use:{}", m), (l, 8 + 1.min(m.len() - 1))));
+            }
+            t.push("endproc".to_string());
+            t.push(String::new());
+        }
     }
     if spec.flags.contains('x') {
         // a method that looks names up through self, the parent chain and the uses lists
